@@ -1024,6 +1024,104 @@ def _converter_entries() -> None:
 _converter_entries()
 
 
+# ---------------------------------------------------------------- "identity" subclasses (appended last: existing entry indices stay put)
+# A user subclass is entitled to return the `data: bytes` argument of deserialize() as its packet.  If a base class ever hands
+# deserialize() a view of the reused receive buffer instead of bytes, such packets silently change (or become unusable)
+# when the next read overwrites the buffer: only a comparison made after the whole stream was received, on the kept
+# objects and type-strict, sees it.
+class IdentityAutoSep(AutoSeparatedPacketSerializer[bytes, bytes]):
+    __slots__ = ()
+
+    def __init__(self, separator: bytes, *, limit: int | None = None, debug: bool = False) -> None:
+        if limit is None:
+            super().__init__(separator, debug=debug)
+        else:
+            super().__init__(separator, limit=limit, debug=debug)
+
+    def serialize(self, packet: bytes) -> bytes:
+        return packet
+
+    def deserialize(self, data: bytes) -> bytes:
+        return data
+
+
+class IdentityFixed(FixedSizePacketSerializer[bytes, bytes]):
+    __slots__ = ()
+
+    def serialize(self, packet: bytes) -> bytes:
+        return packet
+
+    def deserialize(self, data: bytes) -> bytes:
+        if len(data) != self.packet_size:  # one-shot use: the subclass's deserialize is the only size check there is
+            raise DeserializeError("wrong size")
+        return data
+
+
+class LenPrefixFile(FileBasedPacketSerializer[bytes, bytes]):
+    """File-based format that is not pickle: 2-byte big-endian length + payload; the packet is what file.read() returned."""
+
+    __slots__ = ()
+
+    def __init__(self, *, limit: int | None = None, debug: bool = False) -> None:
+        if limit is None:
+            super().__init__(expected_load_error=ValueError, debug=debug)
+        else:
+            super().__init__(expected_load_error=ValueError, limit=limit, debug=debug)
+
+    def dump_to_file(self, packet: bytes, file: Any) -> None:
+        file.write(len(packet).to_bytes(2, "big"))
+        file.write(packet)
+
+    def load_from_file(self, file: Any) -> bytes:
+        head = file.read(2)
+        if len(head) < 2:
+            raise EOFError
+        n = int.from_bytes(head, "big")
+        if n > 60_000:
+            raise ValueError("length field out of range")
+        data = file.read(n)
+        if len(data) < n:
+            raise EOFError
+        return data
+
+
+def _identity_entries() -> None:
+    for sep in (b"\n", b"\r\n"):
+        pool = bytes(b for b in b"abcxyz012 \x00\r\n\x7f\xfe\xff" if b != sep[-1])
+
+        def make(limit, hostile=False, sep=sep):
+            return IdentityAutoSep(sep, limit=limit, **_D())
+
+        def gen(rng, size="small", mode="stream", sep=sep, pool=pool):
+            n = rng.randint(40_000, 150_000) if size == "large" else _len(rng, 1)
+            data = bytes(rng.choices(pool, k=n))
+            assert data and sep not in data and (data + sep).find(sep) == len(data)
+            return data
+
+        _add(Entry(f"autosep/identity/sep={sep.hex()}", "autosep", make, gen, "non-empty bytes that neither contain the separator nor form it with the appended one; deserialize() returns its argument", sep=sep, has_limit=True))
+
+    for size in (1, 5, 32):
+
+        def make_f(limit, hostile=False, size=size):
+            return IdentityFixed(size, **_D())
+
+        def gen_f(rng, size_="small", mode="stream", size=size):
+            return rng.randbytes(size)
+
+        _add(Entry(f"fixed/identity/size={size}", "fixed", make_f, gen_f, "bytes of exactly `size`; deserialize() returns its argument", hints=("fields",), large="none"))
+
+    def make_l(limit, hostile=False):
+        return LenPrefixFile(limit=limit, **_D())
+
+    def gen_l(rng, size="small", mode="stream"):
+        return rng.randbytes(rng.randint(40_000, 59_000) if size == "large" else _len(rng, 0))
+
+    _add(Entry("filebased/lenprefix", "filebased", make_l, gen_l, "bytes of length 0..60000; the packet is the object returned by file.read()", has_limit=True, hints=("blocks",)))
+
+
+_identity_entries()
+
+
 # ================================================================================================ lookups
 BY_NAME: dict[str, Entry] = {e.name: e for e in MATRIX}
 assert len(BY_NAME) == len(MATRIX), "duplicate entry names"
